@@ -65,6 +65,7 @@ struct Chunked {
 struct Reader {
     std::vector<uint8_t> f;                                                         // the main file
     std::function<bool(const std::string &, std::vector<uint8_t> &)> external;      // bytes of an external file by name
+    std::function<bool(const DD &, const DD &)>                      declared_alias; // the writer of the file aliased these two on purpose
     std::vector<DD>                            dds;                                 // live descriptors in chain order
     std::vector<std::pair<int64_t, int64_t>>   ddblocks;                            // [start,end) of each descriptor block
     std::vector<std::string>                   errors;                              // violations of the published format
@@ -182,6 +183,8 @@ struct Reader {
             for (size_t j = i + 1; j < rs.size() && rs[j].a < rs[i].b; j++) {
                 if (rs[i].a == rs[j].a && rs[i].b == rs[j].b && rs[i].who >= 0 && rs[j].who >= 0)
                     continue; // identical extents: aliases (Hdupdd, first linked block)
+                if (rs[i].a == rs[j].a && rs[i].who >= 0 && rs[j].who >= 0 && declared_alias && declared_alias(dds[(size_t)rs[i].who], dds[(size_t)rs[j].who]))
+                    continue; // an alias the workload made on purpose, whose original has grown in place since
                 auto nm = [&](int w) { return w < 0 ? strf("descriptor block %d", -1 - w) : strf("%d/%d", dds[(size_t)w].tag, dds[(size_t)w].ref); };
                 err(strf("%s [%lld,%lld) overlaps %s [%lld,%lld)", nm(rs[i].who).c_str(), (long long)rs[i].a, (long long)rs[i].b, nm(rs[j].who).c_str(), (long long)rs[j].a,
                          (long long)rs[j].b));
